@@ -104,6 +104,43 @@ def par(*jobs):
         return [f.result() for f in futs]
 
 
+def sigkey(sig):
+    return json.dumps(sig, sort_keys=True)
+
+
+def pick_for_solo(sigs, per_sig=2, cap=8):
+    """sigs: signature of every suspect case -> indexes to run again alone: up to per_sig per signature, cap in all
+    (signatures in turn, so that every cause gets its chance)."""
+    by = {}
+    for k, sg in enumerate(sigs):
+        by.setdefault(sigkey(sg), []).append(k)
+    picked = []
+    for rnd in range(per_sig):
+        for ks in by.values():
+            if rnd < len(ks) and len(picked) < cap:
+                picked.append(ks[rnd])
+    return sorted(picked)
+
+
+def confirm_solo(ctx, mode, vecs, bad, sig_of, isbad, tag):
+    """Confirm-before-report for run8/run10: the disagreeing vectors (indexes `bad`) are run again alone - one at a
+    time, a fresh worker process each, no sibling workers, wall-clock limits ten times larger (yp -solo).  A case is
+    reported if it disagrees again, or, when it was not picked, if a picked case of the same signature did.
+    Returns (indexes to report, number of cases dropped as unconfirmed)."""
+    if not bad:
+        return [], 0
+    sigs = [sig_of(i) for i in bad]
+    picked = pick_for_solo(sigs, per_sig=3, cap=45)
+    cp, out = ctx.path(f"confirm_{tag}.ndjson"), ctx.path(f"confirm_{tag}.out")
+    write_ndjson(cp, [vecs[bad[k]] for k in picked])
+    ctx.run_bin("yp", [mode, "-solo", "-out", out, cp], timeout=900)
+    r2 = [x["r"] for x in read_ndjson(out)]
+    again = {picked[j] for j, r in enumerate(r2) if isbad(r)}
+    good_sigs = {sigkey(sigs[k]) for k in again}
+    report = [bad[k] for k in range(len(bad)) if (k in again) or (k not in picked and sigkey(sigs[k]) in good_sigs)]
+    return report, len(bad) - len(report)
+
+
 def run_trace_tlc(ctx, module, cfg, trace, nchunks, split_key, timeout=1500):
     """Validate an ndjson trace with a TLC trace spec, split into chunks at run boundaries."""
     lines = open(trace).read().splitlines()
@@ -153,10 +190,11 @@ def c07_sig_trace(f):
     return dict(site="trace", what=f["what"], where=f["where"], inBlock=f["depth"], ev=f["ev"])
 
 
-def c07_round(ctx, vecfiles, tag, hooks):
-    """Replay vectors on the real parser, validate the hook trace; returns (vectors, results, trace failures, events)."""
+def c07_round(ctx, vecfiles, tag, hooks, solo=False):
+    """Replay vectors on the real parser, validate the hook trace; returns (vectors, results, trace failures, events).
+    solo: confirmation run (one case at a time in a fresh worker process, limits ten times larger)."""
     res, trace = ctx.path(f"res7_{tag}.ndjson"), ctx.path(f"trace7_{tag}.ndjson")
-    args = ["run7", "-out", res, "-workers", "12"]
+    args = ["run7", "-out", res, "-workers", "12"] + (["-solo"] if solo else [])
     if hooks:
         args += ["-trace", trace]
     ctx.run_bin("ypt" if hooks else "yp", args + vecfiles, timeout=1200)
@@ -166,7 +204,7 @@ def c07_round(ctx, vecfiles, tag, hooks):
         raise Infra(f"run7 returned {len(results)} results for {len(vecs)} vectors")
     fails, runs, events = [], 0, 0
     if hooks:
-        fails, runs, events, _ = run_trace_tlc(ctx, "YangLexerTrace", "YangLexerTrace.cfg", trace, 8,
+        fails, runs, events, _ = run_trace_tlc(ctx, "YangLexerTrace", "YangLexerTrace.cfg", trace, 2 if solo else 8,
                                                lambda l: l.startswith('{"ev":"init"'))
         if runs != len(vecs):
             raise Infra(f"trace has {runs} runs for {len(vecs)} vectors")
@@ -242,13 +280,21 @@ def run_c07(ctx):
     (vecs, results, fails, events), (cvecs, cres), (rvecs, rres) = par(
         lambda: c07_round(ctx, files, "main", hooks), lambda: plain("yp", "cat", catfile), race_slice)
     ctx.traces += len(vecs) + len(cvecs) + len(rvecs)
-    # the process-level verdicts of the untraced runs (a data race or an abort of the runtime is not a matter of chance to re-run)
+    # suspects: (vector, signature, what, replay).  Nothing is reported before it has shown again in a solo run, except a
+    # worker stopped by the Go runtime or by the race detector (GORACE=halt_on_error=1): that is not a matter of timing.
+    suspects = []
     for tag, vs, rs in (("concatenations", cvecs, cres), ("race-detector", rvecs, rres)):
         for v, r in zip(vs, rs):
-            if r["verdict"] not in ("ok", "skipped"):
-                ctx.disagree(dict(site=tag, what=r["verdict"], ret=r["ret"]), f"Parse under {tag}: {r['verdict']} on {show(v['text'], 80)!r}",
-                             dict(kind=tag, text=v["text"][:4000], shown=show(v["text"], 600), result=r,
-                                  how="bin/check C07 (yp / ypt-race run7 on this text, GORACE=halt_on_error=1)"))
+            if r["verdict"] in ("ok", "skipped"):
+                continue
+            sig = dict(site=tag, what=r["verdict"], ret=r["ret"])
+            what = f"Parse under {tag}: {r['verdict']} on {show(v['text'], 80)!r}"
+            replay = dict(kind=tag, text=v["text"][:4000], shown=show(v["text"], 600), result=r,
+                          how="bin/check C07 (yp / ypt-race run7 on this text, GORACE=halt_on_error=1)")
+            if r["verdict"] in ("crash", "data-race") and "worker silent" not in r.get("err", ""):
+                ctx.disagree(sig, what, replay)
+            else:
+                suspects.append((v, sig, what, replay))
     # binding self-test: a trace with one corrupted item extent must be rejected by the validator
     tl = open(ctx.path("trace7_main.ndjson")).read().splitlines()[:400]
     k = next((i for i, l in enumerate(tl) if '"ev":"emit"' in l and '"typ":"String"' in l), None)
@@ -284,19 +330,35 @@ def run_c07(ctx):
 
     bad = collect(vecs, results, fails)
     skipped = sum(1 for r in results if r["verdict"] == "skipped")
-    if bad:
-        # re-execute the disagreeing cases in isolation; keep what disagrees again
-        ids = sorted(bad)[:24]
+    for i in sorted(bad):
+        sig, what, replay = bad[i]
+        if replay["result"]["verdict"] == "crash" and "worker silent" not in replay["result"].get("err", ""):
+            ctx.disagree(sig, what, replay)          # the process died inside the call
+        else:
+            suspects.append((vecs[i], sig, what, replay))
+    timing_unconfirmed = 0
+    if suspects:
+        # confirm before report: every suspect signature is run again alone (fresh worker process per case, nothing else
+        # running, watchdog 20 s, grace 5 s); only what shows again is a violation
+        picked = pick_for_solo([x[1] for x in suspects], per_sig=2, cap=8)
         cp = ctx.path("confirm7.ndjson")
-        write_ndjson(cp, [vecs[i] for i in ids])
-        v2, r2, f2, _ = c07_round(ctx, [cp], "confirm", hooks)
+        write_ndjson(cp, [suspects[k][0] for k in picked])
+        v2, r2, f2, _ = c07_round(ctx, [cp], "confirm", hooks, solo=True)
         again = collect(v2, r2, f2)
-        confirmed = {ids[k] for k in again}
-        for i in sorted(bad):
-            if i in confirmed or i not in ids:
-                sig, what, replay = bad[i]
-                replay["how"] = "bin/check C07 (ypt run7 on this text; YangLexerTrace on its events)"
-                ctx.disagree(sig, what, replay)
+        good_sigs = {sigkey(suspects[picked[j]][1]) for j in again}
+        for k, (v, sig, what, replay) in enumerate(suspects):
+            if k in picked:
+                j = picked.index(k)
+                if j not in again:
+                    timing_unconfirmed += 1
+                    continue
+                _, what2, replay2 = again[j]
+                replay = dict(replay, solo=replay2, confirmed="shown again alone: " + what2)
+            elif sigkey(sig) not in good_sigs:
+                timing_unconfirmed += 1
+                continue
+            replay["how"] = "bin/check C07 (ypt run7 [-solo] on this text; YangLexerTrace on its events)"
+            ctx.disagree(sig, what, replay)
     kinds = {}
     for v in vecs:
         k = (v["endsIn"], v["inBlock"], v["lastItem"])
@@ -307,13 +369,14 @@ def run_c07(ctx):
                samples=[dict(text=show(v["text"], 120), endsIn=v["endsIn"], result=r["ret"]) for v, r in list(zip(vecs, results))[7::max(1, len(vecs) // 3)]][:3],
                mc_maxlen=6 if q else 12, trace_events=events, concatenation_texts=len(cvecs), race_detector_calls=len(rvecs),
                race_detector_skipped=sum(1 for r in rres if r["verdict"] == "skipped"), repo_texts=len(rts), truncated_texts=len(given),
-               hang_budget_skipped=skipped, exhaustive=True,
+               hang_budget_skipped=skipped, timing_unconfirmed=timing_unconfirmed, exhaustive=True,
                explanation="TLC explored the lexer/parser mechanism for every text to the length bound and every abort point (states), generated the "
                            "texts with their line geometry; every text was parsed by the real code under a watchdog with a goroutine dump, and the "
                            "channel events of every call were validated by YangLexerTrace")
     return ctx.finish(cov, [
         "the parser is abstracted to: consumes items, may stop at any item, succeeds only after EOF (all of parse.go's error exits go through Tree.recover)",
-        "close of the channel and the end of the goroutine are one step of the model; the harness polls the goroutine dump for up to 250 ms",
+        "close of the channel and the end of the goroutine are one step of the model; the harness waits for the goroutine to go (250 ms, 5 s in the solo re-run) unless it is blocked",
+        "verdicts that rest on a timer (hang, goroutine left, no exit event, silent worker) are suspicions: each is run again alone with limits ten times larger and only what shows again is reported; the rest is counted as timing_unconfirmed",
         "token boundaries that do not matter for C07 (word directly followed by a comment, // comment at the end of the text) are accepted either way by the trace validator; C10 judges them",
         "texts longer than the bound are sampled, not exhausted",
         "memory-level races between the lexer goroutine and the parser are outside the TLA+ model: a slice of the calls runs under the Go race detector (trusted observer)",
@@ -419,20 +482,13 @@ def run_c08(ctx):
     ctx.traces += len(vecs)
     bad = [i for i, (v, r) in enumerate(zip(vecs, results)) if v["judged"] and not (r["ret"] == "ok" and r.get("equal"))]
     unjudged = sum(1 for v in vecs if not v["judged"])
-    if bad:
-        ids = bad[:80]
-        cp = ctx.path("confirm8.ndjson")
-        write_ndjson(cp, [vecs[i] for i in ids])
-        res2 = ctx.path("res8c.ndjson")
-        ctx.run_bin("yp", ["run8", "-out", res2, "-workers", "4", cp], timeout=300)
-        r2 = [x["r"] for x in read_ndjson(res2)]
-        confirmed = {ids[k] for k, r in enumerate(r2) if not (r["ret"] == "ok" and r.get("equal"))}
-        for i in bad:
-            if i in confirmed or i not in ids:
-                v, r = vecs[i], results[i]
-                ctx.disagree(c08_sig(v, r), f"argument of {show(v['text'], 120)!r}: want {show(v['expect'], 60)!r} got {show(r.get('got', []), 60)!r} {r.get('err', '')}",
-                             dict(kind="replay", text=v["text"], shown=show(v["text"]), want=v["expect"], got=r.get("got"), ret=r["ret"], err=r.get("err"),
-                                  feat=v["feat"], how="bin/check C08 (yp run8 on this vector)"))
+    report, unconfirmed8 = confirm_solo(ctx, "run8", vecs, bad, lambda i: c08_sig(vecs[i], results[i]),
+                                        lambda r: not (r["ret"] == "ok" and r.get("equal")), "8")
+    for i in report:
+        v, r = vecs[i], results[i]
+        ctx.disagree(c08_sig(v, r), f"argument of {show(v['text'], 120)!r}: want {show(v['expect'], 60)!r} got {show(r.get('got', []), 60)!r} {r.get('err', '')}",
+                     dict(kind="replay", text=v["text"], shown=show(v["text"]), want=v["expect"], got=r.get("got"), ret=r["ret"], err=r.get("err"),
+                          feat=v["feat"], how="bin/check C08 (yp run8 [-solo] on this vector)"))
     ctx.traces += len(events)
     for f in fails:
         e = events[f["id"] - 1]
@@ -442,7 +498,7 @@ def run_c08(ctx):
     for v in vecs:
         f = v["feat"]
         shapes[("+".join(f["forms"]), f["lines"], f["emptyFirstLine"], f["blankMiddleLine"], f["crlf"], v["fam"])] = 1
-    cov = dict(evaluations=len(vecs), distinct_nontrivial=len(shapes), unjudged=unjudged, random_long_strings=len(events), long_strings_judged=judged,
+    cov = dict(evaluations=len(vecs), distinct_nontrivial=len(shapes), unjudged=unjudged, timing_unconfirmed=unconfirmed8, random_long_strings=len(events), long_strings_judged=judged,
                rule="vectors = layouts enumerated by YangStringGen (two- and three-line strings x quote column x indentation x trailing blanks x LF/CRLF, "
                     "plain forms, concatenations with trivia) + TLC-sampled layouts; distinct = (quoting forms, lines, empty first line, blank middle line, CRLF, family)",
                samples=[dict(text=show(v["text"], 200), value=show(v["expect"], 80)) for v in vecs[5::max(1, len(vecs) // 3)]][:3],
@@ -534,20 +590,12 @@ def run_c10(ctx):
             for sh, ids in shapes.items():
                 if ids is not major:
                     layout_dis += ids
-    if bad:
-        ids = bad[:80]
-        cp = ctx.path("confirm10.ndjson")
-        write_ndjson(cp, [vecs[i] for i in ids])
-        res2 = ctx.path("res10c.ndjson")
-        ctx.run_bin("yp", ["run10", "-out", res2, "-workers", "4", cp], timeout=300)
-        r2 = [x["r"] for x in read_ndjson(res2)]
-        confirmed = {ids[k] for k, r in enumerate(r2) if isbad(r)}
-        for i in bad:
-            if i in confirmed or i not in ids:
-                v, r = vecs[i], results[i]
-                ctx.disagree(c10_sig(v, r), f"tree of {show(v['text'], 120)!r}: {r.get('diff') or r.get('err')}",
-                             dict(kind="replay", text=v["text"], shown=show(v["text"], 2000), diff=r.get("diff"), ret=r["ret"], err=r.get("err"),
-                                  feat=v["feat"], how="bin/check C10 (yp run10 on this vector)"))
+    report, unconfirmed10 = confirm_solo(ctx, "run10", vecs, bad, lambda i: c10_sig(vecs[i], results[i]), isbad, "10")
+    for i in report:
+        v, r = vecs[i], results[i]
+        ctx.disagree(c10_sig(v, r), f"tree of {show(v['text'], 120)!r}: {r.get('diff') or r.get('err')}",
+                     dict(kind="replay", text=v["text"], shown=show(v["text"], 2000), diff=r.get("diff"), ret=r["ret"], err=r.get("err"),
+                          feat=v["feat"], how="bin/check C10 (yp run10 [-solo] on this vector)"))
     for i in layout_dis:
         v = vecs[i]
         ctx.disagree(dict(site="replay", what="layouts-disagree", wordThenComment=v["wordThenComment"], lineCommentAtEnd=v["lineCommentAtEnd"], layout=v["feat"]["kind"]),
@@ -560,7 +608,7 @@ def run_c10(ctx):
     trees = {(v["fam"], v["tid"]) for v in vecs}
     kinds = {(v["feat"]["kind"], v["feat"]["slot"], v["feat"]["pick"]) for v in vecs}
     cov = dict(evaluations=len(vecs), distinct_nontrivial=len(trees) * len(kinds), trees=len(trees), layout_kinds=len(kinds),
-               unjudged_arguments=sum(1 for v in vecs if not v["judged"]), repo_texts=len(base), relaid_texts=len(relaid), repo_events_judged=judged,
+               unjudged_arguments=sum(1 for v in vecs if not v["judged"]), timing_unconfirmed=unconfirmed10, repo_texts=len(base), relaid_texts=len(relaid), repo_events_judged=judged,
                rule="vectors = trees x (compact layout, every trivia at every used token boundary one at a time, every quoting form of every argument, "
                     "every trailing trivia, TLC-sampled full layouts); distinct = trees x (layout kind, boundary slot, pick)",
                samples=[dict(text=show(v["text"], 200)) for v in vecs[11::max(1, len(vecs) // 3)]][:3], exhaustive=True,
